@@ -27,6 +27,7 @@ struct step_adjustment_error : public odeint_error { explicit step_adjustment_er
 struct VerifOdeintScript {
     long nsteps;        // number of steps the mock takes to cover [t0, t1]
     long throw_at;      // >=0: throw step_adjustment_error before taking step #throw_at
+    long stall;         // this many of the steps (from step 1 on) do not advance the time the observer sees (t + h == t for a tiny h)
     long observer_calls, fex_calls, jac_calls;
     std::vector<double> observed_t;
 };
@@ -49,7 +50,11 @@ size_t integrate_adaptive(controlled_stepper_mock<Stepper> st, System system, St
         // exercise the real generated functors as a Rosenbrock step would
         system.first(x, dxdt, t); verif_odeint.fex_calls++;
         system.second(x, J, t, dfdt); verif_odeint.jac_calls++;
-        Time tn = (s == n - 1) ? t1 : t0 + (t1 - t0) * (Time)(s + 1) / (Time)n;
+        // step 0 advances, steps 1..stall leave t where it is, the remaining ones advance; the last step always ends at t1
+        long stall = verif_odeint.stall < 0 ? 0 : (verif_odeint.stall > n - 1 ? n - 1 : verif_odeint.stall);
+        long prog = n - stall, p = (s <= stall) ? 1 : s + 1 - stall;
+        Time tn = (s == n - 1) ? t1 : t0 + (t1 - t0) * (Time)p / (Time)prog;
+        if (tn < t) tn = t;
         for (size_t i = 0; i < x.size(); i++) x[i] += (tn - t);
         t = tn;
         ++count;
